@@ -105,7 +105,7 @@ def excluded(op, old, new):
     return False
 
 
-def run(ctx, model_available=True):
+def _run_in_zone(ctx, model_available=True):
     rng = rng_for(ctx.seed, "C19")
     failures = []
     impls = []
@@ -200,3 +200,23 @@ def replay(ctx, rp):
         print(i, x.get("line") or x.get("fields"), "same" if ox == oy else f"DIFF {ox[:2]} vs {oy[:2]}")
         bad |= ox != oy
     return 1 if bad else 0
+
+
+def run(ctx, model_available=True):
+    """The whole run happens in a time zone that is not UTC (and has daylight saving all year), so
+    that a difference between the versions in how the time reply is computed (local vs UTC seconds)
+    cannot hide behind a zero offset; the harness's own clock oracle uses the same zone."""
+    import os
+    import time as _time
+
+    old = os.environ.get("TZ")
+    os.environ["TZ"] = "DDD-9:30EEE,J1/0,J365/23"
+    _time.tzset()
+    try:
+        return _run_in_zone(ctx, model_available)
+    finally:
+        if old is None:
+            os.environ.pop("TZ", None)
+        else:
+            os.environ["TZ"] = old
+        _time.tzset()
